@@ -287,10 +287,6 @@ func checkC02(c *core.Ctx, rc *rtCase, file []byte, cont *refavro.Container, per
 		c.Violate("harness", "type outside the model: "+rc.T.String(), nil)
 		return
 	}
-	if d := refavro.Diff(model.StripNames(cont.Schema), want, "schema"); d != "" {
-		c.Violate("schema", fmt.Sprintf("embedded schema differs from the documented mapping: %s\n type %s\n schema %s", d, rc.T, cont.SchemaJSON), rc.replay(file))
-		return
-	}
 	recs := cont.AllRecords()
 	if len(recs) != len(rc.Vals) {
 		c.Violate("count", fmt.Sprintf("wrote %d records, file holds %d", len(rc.Vals), len(recs)), rc.replay(file))
@@ -302,12 +298,27 @@ func checkC02(c *core.Ctx, rc *rtCase, file []byte, cont *refavro.Container, per
 			return
 		}
 	}
+	schemaDiff := refavro.Diff(model.StripNames(cont.Schema), want, "schema")
 	for k, d := range recs {
-		if df := model.MatchDatum(rc.T, rc.Vals[k], false, d, fmt.Sprintf("rec[%d]", k)); df != "" {
+		var df string
+		if schemaDiff == "" {
+			df = model.MatchDatum(rc.T, rc.Vals[k], false, d, fmt.Sprintf("rec[%d]", k))
+		} else {
+			// The embedded schema is not the documented mapping (that is C15's business). C02 only asks that the
+			// payload be the encoding of the values under the embedded schema alone: judge it under that schema.
+			df = model.MatchUnder(cont.Schema, rc.T, rc.Vals[k], false, d, fmt.Sprintf("rec[%d]", k))
+			if df != "" {
+				df += " (embedded schema differs from the documented mapping: " + schemaDiff + ")"
+			}
+		}
+		if df != "" {
 			c.Violate("datum", fmt.Sprintf("%s; type %s [%s]\n value %s\n datum %s", df, rc.T, rc.CfgStr,
 				trunc(model.RenderValue(rc.T, rc.Vals[k]), 600), trunc(refavro.Render(d), 600)), rc.replay(file))
 			return
 		}
+	}
+	if schemaDiff != "" {
+		c.Count("embedded-schema-not-documented-mapping", 1)
 	}
 	c.Count("longform-varints", int64(cont.LongForms))
 }
